@@ -140,9 +140,8 @@ fn calc_expr(input: Span) -> PResult<Value> {
             delimited(
                 opt_spacelike,
                 alt((
-                    value(Operator::Div, tag("/")),
-                    value(Operator::Modulo, tag("%")),
-                    value(Operator::Multiply, tag("*")),
+                    value(Operator::Plus, tag("+")),
+                    value(Operator::Minus, tag("-")),
                 )),
                 opt_spacelike,
             ),
@@ -161,8 +160,9 @@ pub fn single_factor(input: Span) -> PResult<Value> {
             delimited(
                 opt_spacelike,
                 alt((
-                    value(Operator::Plus, tag("+")),
-                    value(Operator::Minus, tag("-")),
+                    value(Operator::Div, tag("/")),
+                    value(Operator::Modulo, tag("%")),
+                    value(Operator::Multiply, tag("*")),
                 )),
                 opt_spacelike,
             ),
